@@ -1117,3 +1117,116 @@ Proof.
   exact (conj ideal_com_inj (conj ideal_h512_len (conj ideal_h512_lo_inj (conj ideal_h512_hi_inj
           (conj ideal_xof_len ideal_xof_inj))))).
 Qed.
+
+(* ====================================================================== *)
+(* distinctness: different pairs, sessions, sub-quorum chains              *)
+(* ====================================================================== *)
+
+Section Distinct.
+  Variable h512 : bytes -> bytes.
+  Variable xof : bytes -> bytes -> N -> N -> bytes.
+  Section SidInjective.
+  Hypothesis h512_lo_inj : forall a b, firstn W (h512 a) = firstn W (h512 b) -> a = b.
+
+  (* the session identifier determines the quorum and every broadcast value *)
+  Theorem sid_binds_session s v s' v' :
+    Forall id_ok s -> Forall id_ok s' -> len s < 2^64 -> len s' < 2^64 ->
+    Forall (fun id => bview_ok (v id)) s -> Forall (fun id => bview_ok (v' id)) s' ->
+    firstn W (h512 (cs_of s v)) = firstn W (h512 (cs_of s' v')) ->
+    s = s' /\ forall id, In id s -> v id = v' id.
+  Proof.
+    intros Hs Hs' L L' V V' H. apply h512_lo_inj in H. apply cs_of_inj in H; assumption.
+  Qed.
+
+  End SidInjective.
+
+  Hypothesis xof_len : forall S i off n, length (xof S i off n) = N.to_nat n.
+  Hypothesis xof_inj : forall S i S' i' off, xof S i off 32 = xof S' i' off 32 -> S = S' /\ i = i'.
+
+  (* the stream of a pair's seed determines the pair, the session's common seed, both
+     contributions and the whole chain of sub-quorums it was derived through *)
+  Theorem pair_distinct a b a' b' cs cs' c1 c2 c1' c2' rpath rpath' :
+    a < b -> a' < b' -> id_ok b -> id_ok b' ->
+    length c1 = W -> length c2 = W -> length c1' = W -> length c2' = W ->
+    Forall quorum_ok rpath -> Forall quorum_ok rpath' ->
+    seed_read xof (seed_path xof (top_seed a b (pair_seed_bytes cs c1 c2)) rpath) 32 =
+    seed_read xof (seed_path xof (top_seed a' b' (pair_seed_bytes cs' c1' c2')) rpath') 32 ->
+    a = a' /\ b = b' /\ cs = cs' /\ c1 = c1' /\ c2 = c2' /\ rpath = rpath'.
+  Proof.
+    intros Hab Hab' Hb Hb' L1 L2 L1' L2' Q Q' H.
+    apply (seed_path_inj xof xof_len xof_inj) in H; try assumption; try (unfold id_ok in *; lia).
+    destruct H as (E1 & E2 & E3 & E4).
+    apply pair_seed_bytes_inj in E3; try assumption.
+    destruct E3 as (-> & -> & ->).
+    repeat split; try assumption; lia.
+  Qed.
+End Distinct.
+
+(* ====================================================================== *)
+(* an honest scheduler (used for the non-vacuity example only)             *)
+(* ====================================================================== *)
+
+Section HonestRun.
+  Variable com : bytes -> bytes -> bytes.
+  Variable h512 : bytes -> bytes.
+
+  Fixpoint collect {A B} (f : A -> option B) (l : list (N * A)) (skip : N) : amap B :=
+    match l with
+    | [] => []
+    | (i, a) :: r =>
+        if i =? skip then collect f r skip
+        else match f a with
+             | Some b => (i, b) :: collect f r skip
+             | None => collect f r skip
+             end
+    end.
+
+  Definition honest_run (q : list N) (tape : N -> bytes) : list (N * prun) :=
+    let p1 := map (fun i => (i, party_run com h512 i q (tape i) 0 [] [] [] [])) q in
+    let B1 := fun i => collect pr_r1 p1 i in
+    let p2 := map (fun i => (i, party_run com h512 i q (tape i) 0 (B1 i) [] [] [])) q in
+    let B2 := fun i => collect pr_r2b p2 i in
+    let U2 := fun i => collect (fun r => get i (pr_r2u r)) p2 i in
+    let p3 := map (fun i => (i, party_run com h512 i q (tape i) 0 (B1 i) (B2 i) (U2 i) [])) q in
+    let U3 := fun i => collect (fun r => get i (pr_r3u r)) p3 i in
+    map (fun i => (i, party_run com h512 i q (tape i) 0 (B1 i) (B2 i) (U2 i) (U3 i))) q.
+End HonestRun.
+
+(* ---------- a concrete honest run with computable toy hashes (sid_agreement and
+   pair_symmetry hold for arbitrary hash functions, so any functions will do here) ---------- *)
+Definition toy_com (k i : bytes) : bytes := firstn 32 (i ++ k).
+Definition toy_h512 (i : bytes) : bytes := firstn 64 (i ++ repeat 0 64).
+Definition toy_tape (i : N) : bytes := map (fun k => (N.of_nat k * 7 + i) mod 251 + 1) (seq 0 224).
+Definition toy_q : list N := [7; 1099511627776; 3].
+
+Definition ex_p1 := map (fun i => (i, party_run toy_com toy_h512 i toy_q (toy_tape i) 0 [] [] [] [])) toy_q.
+Definition ex_B1 (i : N) := collect pr_r1 ex_p1 i.
+Definition ex_p2 := map (fun i => (i, party_run toy_com toy_h512 i toy_q (toy_tape i) 0 (ex_B1 i) [] [] [])) toy_q.
+Definition ex_B2 (i : N) := collect pr_r2b ex_p2 i.
+Definition ex_U2 (i : N) := collect (fun r => get i (pr_r2u r)) ex_p2 i.
+Definition ex_p3 := map (fun i => (i, party_run toy_com toy_h512 i toy_q (toy_tape i) 0 (ex_B1 i) (ex_B2 i) (ex_U2 i) [])) toy_q.
+Definition ex_U3 (i : N) := collect (fun r => get i (pr_r3u r)) ex_p3 i.
+(* each party is told the quorum in a different order *)
+Definition ex_q (i : N) : list N := if i =? 7 then toy_q else rev toy_q.
+Definition ex_run (i : N) : prun :=
+  party_run toy_com toy_h512 i (ex_q i) (toy_tape i) 0 (ex_B1 i) (ex_B2 i) (ex_U2 i) (ex_U3 i).
+
+Lemma example_run_meets_hypotheses :
+  (exists ci cj, pr_ctx (ex_run 7) = Some ci /\ pr_ctx (ex_run 3) = Some cj) /\
+  Permutation (ex_q 7) (ex_q 3) /\
+  same_broadcasts 7 3 (ex_q 7) (ex_B1 7) (ex_B2 7) (ex_B1 3) (ex_B2 3)
+                  (pr_r1 (ex_run 7)) (pr_r2b (ex_run 7)) (pr_r1 (ex_run 3)) (pr_r2b (ex_run 3)) /\
+  get 3 (ex_U3 7) = get 7 (pr_r3u (ex_run 3)) /\ get 7 (ex_U3 3) = get 3 (pr_r3u (ex_run 7)).
+Proof.
+  split.
+  { eexists. eexists. split; vm_compute; reflexivity. }
+  split.
+  { change (ex_q 7) with toy_q. change (ex_q 3) with (rev toy_q). apply Permutation_rev. }
+  split.
+  { unfold same_broadcasts. split.
+    - intros s Hs N7 N3. change (ex_q 7) with toy_q in Hs. unfold toy_q in Hs.
+      destruct Hs as [<-|[<-|[<-|[]]]]; try contradiction.
+      split; vm_compute; reflexivity.
+    - repeat split; vm_compute; reflexivity. }
+  split; vm_compute; reflexivity.
+Qed.
